@@ -373,8 +373,17 @@ class SymTuple:
             return self.hi + k
         return self.lo + _idx(k)
 
+    def _concrete(self):
+        lo, hi = z3.simplify(self.lo), z3.simplify(self.hi)
+        if z3.is_int_value(lo) and z3.is_int_value(hi):
+            return lo.as_long(), hi.as_long()
+        return None
+
     def __iter__(self):
-        raise EngineError("iteration over a symbolic-length sequence outside vcloop (loop not rewritten)")
+        cc = self._concrete()
+        if cc is None:
+            raise EngineError("iteration over a symbolic-length sequence outside vcloop (loop not rewritten)")
+        return iter([ElemRef(self.env, z3.IntVal(k)) for k in range(cc[0], cc[1])])
 
     def vc_iter(self):
         ex = z3.If(self.hi >= self.lo, self.hi, self.lo)
@@ -490,6 +499,15 @@ class ElemRef:
             if c.decide(st["cur_none"]):
                 return None
             return SymQ("Current", SymNum(st["cur_val"], "float"), SymUnit("Current", idx=st["cur_unit"]))
+        if name in ("maximum_torque", "no_load_speed", "no_load_electric_current", "maximum_electric_current"):
+            self._require_class({0}, name)
+            key = {"maximum_torque": "Tm", "no_load_speed": "w0", "no_load_electric_current": "i0",
+                   "maximum_electric_current": "im"}[name]
+            if key in ("i0", "im") and not c.decide(st["ecc"]):
+                return None
+            return env.motor[key]
+        if name == "time_variables":
+            return TimeVariables(env, i)
         if name in ("compute_torque", "compute_electric_current", "compute_tangential_force",
                     "compute_bending_stress", "compute_contact_stress", "update_time_variables"):
             return lambda: getattr(self._env.iface, name)(self)
@@ -534,6 +552,40 @@ class ElemRef:
 
     def __repr__(self):
         return f"ElemRef({self._i})"
+
+
+class TimeVariables:
+    """element.time_variables: only what the control rules read is modelled (the 'load torque' series)"""
+
+    def __init__(self, env, i):
+        self.env, self.i = env, i
+
+    def __getitem__(self, key):
+        if key != "load torque":
+            raise EngineError(f"time_variables[{key!r}] is not modelled")
+        return RecordedSeries(self.env, self.i, "Tl")
+
+
+class RecordedSeries:
+    def __init__(self, env, i, f):
+        self.env, self.i, self.f = env, i, f
+
+    def __bool__(self):
+        return ctx().decide(z3.Select(self.env.state[f"hlen_{self.f}"], self.i) > 0)
+
+    def __getitem__(self, k):
+        if k != 0:
+            raise EngineError("only series[0] is modelled")
+        env = self.env
+        g = env.ghost.setdefault(f"first_{self.f}", {})
+        key = str(self.i)
+        if key not in g:
+            c = ctx()
+            si = z3.Real(c.fresh_name(f"first_{self.f}"))
+            u = SymUnit(_kind_of_field(self.f), idx=z3.Int(c.fresh_name("u_first")))
+            c.assume(u.factor() > 0)
+            g[key] = SymQ(_kind_of_field(self.f), SymNum(si, "float"), u)
+        return g[key]
 
 
 def _elem_isinstance(obj, cls):
